@@ -184,15 +184,34 @@ Definition half_of (s : psess) : list Z := map su_port (filter (fun su => su_poi
 Lemma end_psess_canon : forall cfg i st s,
   pcfg_ok cfg -> nth_error (pp_sess st) i = Some s -> p_live s = true ->
   end_psess cfg i st =
-  {| pp_pool := match p_passive s with Some p => put (0, p) (pp_pool st) | None => pp_pool st end;
+  {| pp_pool := give_back cfg (p_inflight s)
+                  (match p_passive s with Some p => put (0, p) (pp_pool st) | None => pp_pool st end);
      pp_sess := upd i (fun _ => dead_sess) (pp_sess st);
-     pp_orphans := pp_orphans st ++ half_of s;
-     pp_lost := pp_lost st ++ map su_port (p_inflight s) |}.
+     pp_orphans := pp_orphans st ++ (if pc_giveback cfg then [] else half_of s);
+     pp_lost := pp_lost st ++ (if pc_giveback cfg then [] else map su_port (p_inflight s)) |}.
 Proof.
   intros cfg i st s Hok Hn Hl. unfold end_psess. rewrite Hn, Hl.
   destruct (p_passive s) as [p|] eqn:Hp; [|reflexivity].
   rewrite (pfin_canon cfg s p Hok Hp). reflexivity.
 Qed.
+
+Lemma occ_fold_put : forall p infl pool,
+  occ p (ports_of (fold_left (fun acc su => put (su_prio su, su_port su) acc) infl pool))
+  = occ p (ports_of pool) + occ p (map su_port infl).
+Proof.
+  induction infl as [|su r IH]; intros pool; cbn [fold_left map occ]; [lia|].
+  rewrite IH, occ_put. cbn [snd]. lia.
+Qed.
+
+Lemma occ_give_back : forall cfg p infl pool,
+  occ p (ports_of (give_back cfg infl pool))
+  = occ p (ports_of pool) + (if pc_giveback cfg then occ p (map su_port infl) else 0).
+Proof.
+  intros cfg p infl pool. unfold give_back. destruct (pc_giveback cfg); [apply occ_fold_put|lia].
+Qed.
+
+Lemma give_back_nil : forall cfg pool, give_back cfg [] pool = pool.
+Proof. intros cfg pool. unfold give_back. destruct (pc_giveback cfg); reflexivity. Qed.
 
 Lemma end_psess_noop : forall cfg i st,
   (forall s, nth_error (pp_sess st) i = Some s -> p_live s = false) -> end_psess cfg i st = st.
@@ -209,10 +228,10 @@ Proof.
   destruct (p_live s) eqn:Hl.
   2:{ rewrite end_psess_noop; [reflexivity|]. intros s0 H; congruence. }
   rewrite (end_psess_canon cfg i st s Hok Hn Hl). unfold total. cbn [pp_pool pp_sess pp_lost].
-  rewrite (sumf_upd _ _ _ _ dead_sess Hn), occ_app. unfold sports at 2 3. cbn [dead_sess p_passive p_inflight opt_list map app occ].
-  rewrite occ_app. destruct (p_passive s) as [q|]; cbn [opt_list occ].
-  - rewrite occ_put. cbn [snd]. lia.
-  - lia.
+  rewrite (sumf_upd _ _ _ _ dead_sess Hn), occ_app, occ_give_back. unfold sports at 2 3.
+  cbn [dead_sess p_passive p_inflight opt_list map app occ].
+  rewrite occ_app. destruct (pc_giveback cfg); destruct (p_passive s) as [q|]; cbn [opt_list occ];
+    try rewrite occ_put; cbn [snd]; lia.
 Qed.
 
 Lemma end_all_total : forall cfg n st p, pcfg_ok cfg -> total p (end_all cfg n st) = total p st.
@@ -278,9 +297,13 @@ Proof.
         unfold total, sports. cbn [p_passive p_inflight occ].
         rewrite !occ_app, (occ_remove_nth p _ k su Ek). lia.
     + (* completion *)
-      cbn [fst]. unfold total. cbn [pp_pool pp_sess pp_lost].
-      rewrite (sumf_upd _ _ _ _ _ Hn). unfold sports. cbn [p_passive p_inflight opt_list].
-      rewrite !occ_app, (occ_remove_nth p _ k su Ek). cbn [app occ]. lia.
+      destruct (pc_recheck cfg && match p_passive s with Some _ => true | None => false end).
+      * cbn [fst]. unfold total. cbn [pp_pool pp_sess pp_lost].
+        rewrite (sumf_upd _ _ _ _ _ Hn), occ_put. unfold sports. cbn [p_passive p_inflight opt_list snd].
+        rewrite !occ_app, (occ_remove_nth p _ k su Ek). lia.
+      * cbn [fst]. unfold total. cbn [pp_pool pp_sess pp_lost].
+        rewrite (sumf_upd _ _ _ _ _ Hn). unfold sports. cbn [p_passive p_inflight opt_list].
+        rewrite !occ_app, (occ_remove_nth p _ k su Ek). cbn [app occ]. lia.
   - reflexivity.
   - cbn. apply end_psess_total; assumption.
   - cbn. apply end_all_total; assumption.
@@ -334,10 +357,29 @@ Proof.
   rewrite (end_psess_canon cfg i st s Hok Hn Hl).
   unfold no_inflight in Hq. rewrite Hn in Hq. destruct (p_inflight s) eqn:Ei; [|discriminate].
   constructor; cbn [pp_lost pp_orphans pp_sess].
-  - rewrite (calm_lost _ Hc). reflexivity.
-  - rewrite (calm_orph _ Hc). unfold half_of. rewrite Ei. reflexivity.
+  - rewrite (calm_lost _ Hc). destruct (pc_giveback cfg); reflexivity.
+  - rewrite (calm_orph _ Hc). unfold half_of. rewrite Ei. destruct (pc_giveback cfg); reflexivity.
   - apply Forall_upd; [apply Hc|apply dead_calm].
 Qed.
+
+Lemma end_psess_calm_gb : forall cfg i st,
+  pcfg_ok cfg -> pc_giveback cfg = true -> calm st -> calm (end_psess cfg i st).
+Proof.
+  intros cfg i st Hok Hg Hc.
+  destruct (nth_error (pp_sess st) i) as [s|] eqn:Hn.
+  2:{ rewrite end_psess_noop; [assumption|]. intros s H; congruence. }
+  destruct (p_live s) eqn:Hl.
+  2:{ rewrite end_psess_noop; [assumption|]. intros s0 H; congruence. }
+  rewrite (end_psess_canon cfg i st s Hok Hn Hl), Hg.
+  constructor; cbn [pp_lost pp_orphans pp_sess].
+  - rewrite (calm_lost _ Hc). reflexivity.
+  - rewrite (calm_orph _ Hc). reflexivity.
+  - apply Forall_upd; [apply Hc|apply dead_calm].
+Qed.
+
+Lemma end_all_calm_gb : forall cfg n st,
+  pcfg_ok cfg -> pc_giveback cfg = true -> calm st -> calm (end_all cfg n st).
+Proof. induction n as [|k IH]; intros st Hok Hg Hc; cbn; [assumption|]. apply end_psess_calm_gb; auto. Qed.
 
 Definition all_idle (st : pstate) : Prop := Forall (fun s => p_inflight s = []) (pp_sess st).
 
@@ -398,7 +440,7 @@ Proof.
 Qed.
 
 Theorem pstep_calm : forall cfg st e,
-  pcfg_ok cfg -> pc_hier cfg = true -> calm st -> quiet_ev st e = true ->
+  pcfg_ok cfg -> pc_hier cfg = true -> calm st -> quiet_ev cfg st e = true ->
   calm (fst (pstep cfg st e)).
 Proof.
   intros cfg st e Hok Hh Hc Hq. destruct e as [|i|i k o|i|i|].
@@ -440,13 +482,15 @@ Proof.
       * cbn [fst]. apply end_psess_calm; [assumption| |].
         -- apply calm_set; [assumption|]. solve_calm.
         -- apply no_inflight_set; auto.
-    + cbn [fst opt_list]. constructor; cbn [pp_lost pp_orphans pp_sess].
+    + rewrite andb_false_r. cbn [fst opt_list]. constructor; cbn [pp_lost pp_orphans pp_sess].
       * rewrite (calm_lost _ Hc). reflexivity.
       * rewrite (calm_orph _ Hc). reflexivity.
       * apply Forall_upd; [apply Hc|]. solve_calm.
   - assumption.
-  - cbn. apply end_psess_calm; assumption.
-  - cbn. cbn [quiet_ev] in Hq. apply end_all_calm; auto.
+  - cbn. cbn [quiet_ev] in Hq. apply orb_true_iff in Hq as [Hg|Hq];
+      [apply end_psess_calm_gb|apply end_psess_calm]; assumption.
+  - cbn. cbn [quiet_ev] in Hq. apply orb_true_iff in Hq as [Hg|Hq]; [apply end_all_calm_gb; assumption|].
+    apply end_all_calm; auto.
     unfold all_idle. rewrite forallb_forall in Hq. apply Forall_forall. intros s Hs.
     specialize (Hq s Hs). destruct (p_inflight s); [reflexivity|discriminate].
 Qed.
@@ -613,8 +657,9 @@ Proof.
            apply Forall_remove_nth; assumption.
       * cbn [fst]. apply end_psess_viewed. unfold viewed_ok. cbn. apply Forall_upd; [assumption|]. cbn.
         apply Forall_remove_nth; assumption.
-    + cbn [fst]. unfold viewed_ok. cbn. apply Forall_upd; [assumption|]. cbn.
-      apply Forall_remove_nth; assumption.
+    + destruct (pc_recheck cfg && match p_passive s with Some _ => true | None => false end);
+        cbn [fst]; unfold viewed_ok; cbn; (apply Forall_upd; [assumption|]); cbn;
+        apply Forall_remove_nth; assumption.
   - assumption.
   - cbn. apply end_psess_viewed; assumption.
   - cbn. apply end_all_viewed; assumption.
@@ -658,3 +703,131 @@ Lemma exhaustion_421 : forall cfg st i s,
   plive st i = Some s -> p_passive s = None -> pp_pool st = [] ->
   snd (pstep cfg st (Pasv i)) = [(i, 421)].
 Proof. intros cfg st i s Hl Hp He. cbn. rewrite Hl, Hp, He. reflexivity. Qed.
+
+(* ------------------------------------------------------------------ the repaired source loses nothing, ever *)
+(* pc_giveback: cancellation inside the start-up gives the port back and closes what is bound;
+   pc_recheck: a start-up that finds a listener stored meanwhile gives its own back.
+   With both, for EVERY history (any cancellation point, any overlap): nothing lost, nothing orphaned. *)
+Definition sess_clean (s : psess) : Prop := p_live s = false -> p_passive s = None /\ p_inflight s = [].
+
+Record clean (st : pstate) : Prop := {
+  clean_lost : pp_lost st = [];
+  clean_orph : pp_orphans st = [];
+  clean_sess : Forall sess_clean (pp_sess st);
+}.
+
+Lemma live_clean : forall pv infl, sess_clean {| p_live := true; p_passive := pv; p_inflight := infl |}.
+Proof. intros pv infl H. cbn in H. discriminate. Qed.
+
+Lemma end_psess_clean : forall cfg i st,
+  pcfg_ok cfg -> pc_giveback cfg = true -> clean st -> clean (end_psess cfg i st).
+Proof.
+  intros cfg i st Hok Hg Hc.
+  destruct (nth_error (pp_sess st) i) as [s|] eqn:Hn.
+  2:{ rewrite end_psess_noop; [assumption|]. intros s H; congruence. }
+  destruct (p_live s) eqn:Hl.
+  2:{ rewrite end_psess_noop; [assumption|]. intros s0 H; congruence. }
+  rewrite (end_psess_canon cfg i st s Hok Hn Hl), Hg.
+  constructor; cbn [pp_lost pp_orphans pp_sess].
+  - rewrite (clean_lost _ Hc). reflexivity.
+  - rewrite (clean_orph _ Hc). reflexivity.
+  - apply Forall_upd; [apply Hc|]. intros _. split; reflexivity.
+Qed.
+
+Lemma end_all_clean : forall cfg n st,
+  pcfg_ok cfg -> pc_giveback cfg = true -> clean st -> clean (end_all cfg n st).
+Proof. induction n as [|k IH]; intros st Hok Hg Hc; cbn; [assumption|]. apply end_psess_clean; auto. Qed.
+
+Lemma clean_set : forall st i s pool,
+  clean st -> sess_clean s -> clean (set_psess i s (with_pool pool [] st)).
+Proof.
+  intros st i s pool Hc Hs. constructor; cbn.
+  - rewrite (clean_lost _ Hc). reflexivity.
+  - apply Hc.
+  - apply Forall_upd; [apply Hc|assumption].
+Qed.
+
+Lemma clean_set' : forall st i s, clean st -> sess_clean s -> clean (set_psess i s st).
+Proof.
+  intros st i s Hc Hs. constructor; cbn; try apply Hc. apply Forall_upd; [apply Hc|assumption].
+Qed.
+
+Theorem pstep_clean : forall cfg st e,
+  pcfg_ok cfg -> pc_hier cfg = true -> pc_giveback cfg = true -> pc_recheck cfg = true ->
+  clean st -> clean (fst (pstep cfg st e)).
+Proof.
+  intros cfg st e Hok Hh Hg Hr Hc. destruct e as [|i|i k o|i|i|].
+  - constructor; cbn; try apply Hc.
+    apply Forall_app. split; [apply Hc|]. constructor; [apply live_clean|constructor].
+  - cbn [pstep]. destruct (plive st i) as [s|] eqn:El; [|assumption].
+    destruct (p_passive s) as [q|] eqn:Hp; [assumption|].
+    rewrite Hh. destruct (loop_head true (pp_pool st) []) as [pool' su|pool' lost] eqn:Eh; cbn [fst].
+    + apply clean_set; [assumption|apply live_clean].
+    + apply loop_head_exit_hier in Eh as ->. apply end_psess_clean; auto.
+      constructor; cbn; try apply Hc. rewrite (clean_lost _ Hc). reflexivity.
+  - cbn [pstep]. destruct (plive st i) as [s|] eqn:El; [|assumption].
+    destruct (nth_error (p_inflight s) k) as [su|] eqn:Ek; [|assumption].
+    destruct (su_point su =? 1).
+    + destruct (if memz (su_port su) (listeners st) then AddrInUse else o).
+      * cbn [fst]. apply clean_set'; [assumption|apply live_clean].
+      * rewrite Hh.
+        destruct (loop_head true (put (su_prio su + 1, su_port su) (pp_pool st)) (su_viewed su))
+          as [pool2 su'|pool2 lost] eqn:Eh; cbn [fst].
+        -- apply clean_set; [assumption|apply live_clean].
+        -- apply loop_head_exit_hier in Eh as ->. apply end_psess_clean; auto.
+           apply clean_set; [assumption|apply live_clean].
+      * cbn [fst]. apply end_psess_clean; auto. apply clean_set; [assumption|apply live_clean].
+    + rewrite Hr. destruct (p_passive s) as [q|] eqn:Hp; cbn [andb fst opt_list].
+      * constructor; cbn [pp_lost pp_orphans pp_sess]; try apply Hc.
+        apply Forall_upd; [apply Hc|apply live_clean].
+      * constructor; cbn [pp_lost pp_orphans pp_sess].
+        -- rewrite (clean_lost _ Hc). reflexivity.
+        -- rewrite (clean_orph _ Hc). reflexivity.
+        -- apply Forall_upd; [apply Hc|apply live_clean].
+  - assumption.
+  - cbn. apply end_psess_clean; assumption.
+  - cbn. apply end_all_clean; assumption.
+Qed.
+
+Lemma pinit_clean : forall cfg, clean (pinit cfg).
+Proof. intros cfg. constructor; cbn; auto. Qed.
+
+Theorem fixed_clean : forall cfg evs st,
+  pcfg_ok cfg -> pc_hier cfg = true -> pc_giveback cfg = true -> pc_recheck cfg = true ->
+  clean st -> clean (prun cfg st evs).
+Proof.
+  intros cfg evs. induction evs as [|e r IH]; intros st Hok Hh Hg Hr Hc; cbn; [assumption|].
+  apply IH; auto. apply pstep_clean; auto.
+Qed.
+
+(* POOL CONSERVATION, full strength, for the repaired source: every history - any number of sessions,
+   any bind outcomes, a session end at any moment including inside a listener start-up, overlapping
+   PASV/EPSV - keeps  pool (+) held-by-live-sessions = configured,  loses nothing, orphans nothing *)
+Theorem pool_conserved_fixed : forall cfg evs, pcfg_ok cfg -> pc_hier cfg = true ->
+  pc_giveback cfg = true -> pc_recheck cfg = true ->
+  let st := prun cfg (pinit cfg) evs in
+  (forall p, occ p (ports_of (pp_pool st)) + held p st = occ p (pc_ports cfg))
+  /\ pp_lost st = [] /\ pp_orphans st = [].
+Proof.
+  intros cfg evs Hok Hh Hg Hr st.
+  pose proof (fixed_clean cfg evs (pinit cfg) Hok Hh Hg Hr (pinit_clean cfg)) as Hc. fold st in Hc.
+  split; [|split; apply Hc].
+  intros p. pose proof (accounting cfg evs p Hok) as Ha. fold st in Ha. unfold total in Ha.
+  rewrite (clean_lost _ Hc) in Ha. cbn [occ] in Ha. unfold held. lia.
+Qed.
+
+Theorem quiescent_pool_fixed : forall cfg evs, pcfg_ok cfg -> pc_hier cfg = true ->
+  pc_giveback cfg = true -> pc_recheck cfg = true ->
+  let st := prun cfg (pinit cfg) evs in
+  Forall (fun s => p_live s = false) (pp_sess st) ->
+  forall p, occ p (ports_of (pp_pool st)) = occ p (pc_ports cfg).
+Proof.
+  intros cfg evs Hok Hh Hg Hr st Hdead p.
+  pose proof (fixed_clean cfg evs (pinit cfg) Hok Hh Hg Hr (pinit_clean cfg)) as Hc. fold st in Hc.
+  destruct (pool_conserved_fixed cfg evs Hok Hh Hg Hr) as [Hcons _]. fold st in Hcons.
+  specialize (Hcons p). unfold held in Hcons.
+  rewrite sumf_zero in Hcons; [lia|].
+  rewrite Forall_forall in *. intros s Hs.
+  destruct (proj1 (Forall_forall _ _) (clean_sess _ Hc) s Hs (Hdead s Hs)) as [E1 E2].
+  unfold sports. rewrite E1, E2. reflexivity.
+Qed.
